@@ -26,6 +26,25 @@ pub fn run(w: &[&str]) -> String {
 }
 
 
+/// `displayf <hex>`: the same bytes rendered under format specifications other than `{}` (width, fill / alignment, precision, sign, zero
+/// padding): the diagnostic notation is one text, no flag of the caller's `Formatter` reaches the items inside it.
+/// `same <hex of the text>` or the first specification whose output differs.
+pub fn run_f(w: &[&str]) -> String {
+    let input = match w.first().and_then(|h| unhex(h)) { Some(b) => b, None => return "bad-op".into() };
+    let lim = 64 * input.len() + 4096;
+    let plain = { let mut o = Limited { buf: String::new(), limit: lim, overflow: false }; let _ = write!(o, "{}", minicbor::display(&input)); o.buf };
+    macro_rules! chk { ($spec:literal) => {{
+        let mut o = Limited { buf: String::new(), limit: lim, overflow: false };
+        let _ = write!(o, $spec, minicbor::display(&input));
+        if o.overflow || o.buf != plain { return format!("differs {} {}", $spec.replace(' ', "_"), hex(o.buf.as_bytes())) }
+    }} }
+    chk!("{:>6}"); chk!("{:<3}"); chk!("{:^9}"); chk!("{:*>12}"); chk!("{:.0}"); chk!("{:.3}"); chk!("{:+}"); chk!("{:04}"); chk!("{:#}"); chk!("{:1000}"); chk!("{:8.2}");
+    let mut d = minicbor::Decoder::new(&input);
+    let viatok = { let mut o = Limited { buf: String::new(), limit: lim, overflow: false }; let _ = write!(o, "{:>7.1}", d.tokens()); o.buf };
+    if viatok != plain { return format!("differs tokens{{:>7.1}} {}", hex(viatok.as_bytes())) }
+    format!("same {}", hex(plain.as_bytes()))
+}
+
 /// `displayat <pos> <hex>`: the Display of `Decoder::tokens()` taken from a decoder that has already been advanced to `pos`
 /// (the second way to obtain a `Tokenizer`), next to `minicbor::display(&bytes[pos..])`: `<hex of text> | <hex of text>`.
 pub fn run_at(w: &[&str]) -> String {
